@@ -284,6 +284,11 @@ pub fn gen_cfg_for(prop: &str, rng: &mut Rng, thorough: bool) -> GenCfg {
     let mut cfg = GenCfg::default();
     cfg.max_jobs = if thorough { *rng.pick(&[20usize, 40, 60, 120]) } else { *rng.pick(&[12usize, 25, 40]) };
     match prop {
+        "C01" => {
+            // vicinity clustering merges jobs before the search: the hard rules of the merged jobs (compatibility, skills,
+            // demand, groups, tour size ...) must survive the merge; O1 replays such tours partially (no commute times)
+            cfg.p_clustering = 0.12;
+        }
         "C02" => {
             // conservation: many routes (decomposition), multi jobs, reload markers, tight capacity
             cfg.p_multi_jobs = 1.0;
